@@ -393,7 +393,8 @@ Section Glue.
                (forall x, Holds l' x <-> Holds (RM.slots g) x).
   Proof.
     intros T. unfold RM.resize_less.
-    destruct (Nat.ltb_spec (RM.ideal gc_primes gc_load_num gc_load_den (RM.nitems g)) (RM.nslots g)) as [Hlt|Hge].
+    (* whatever the shrink condition read off the source is (Generated.gc_shrink_wanted): both outcomes are handled *)
+    cbv zeta. match goal with |- context [if ?c then _ else _] => destruct c end.
     - pose proof (RP.gc_ideal_gt (RM.nitems g)) as Hid.
       destruct (RP.g_rehash_ok hashf gc_swap RP.gc_swap_le RP.gc_swap_ge g
                   (RM.ideal gc_primes gc_load_num gc_load_den (RM.nitems g))) as [l' [Hr [Hc' [Hlen [Hh Ho]]]]].
